@@ -55,7 +55,9 @@ func (c *Conversation) genDataMsgWithFlag(message []byte, flag byte, tlvs ...tlv
 	dataMessage.sign(keys.sendingMACKey, header, c.version)
 
 	c.updateMayRetransmitTo(noRetransmit)
-	c.lastMessage(message)
+	if len(message) > 0 {
+		c.resend.last(message)
+	}
 
 	x := dataMessageExtra{keys.extraKey}
 
